@@ -30,6 +30,11 @@ type Property struct {
 	RequiredObs []string
 	// Race: the child must be the -race build (C19).
 	Race bool
+	// UnitPerProcess: every unit runs in a fresh child process (cold package-level
+	// state, cold caches inside shared values); MaxJobs caps the number of
+	// concurrent children (0 = VERIF_JOBS).
+	UnitPerProcess bool
+	MaxJobs        int
 	// CoverFiles are the library files (suffixes such as "graph/canonical.go")
 	// whose per-function statement coverage, measured by the compiler's
 	// coverage counters during this very run, is written to the evidence.
